@@ -336,12 +336,25 @@ pub fn gen(scenario: &str, tier: Tier, seed: u64) -> (RunCfg, Vec<Op>) {
 			threshold: *r.pick(&[0u32, 16, 4096, 4096, u32::MAX]),
 			keys,
 			preimage_vals,
+			bulk: None,
 		});
 	}
 	if scenario == "reindex" {
 		crate::gen2::reindex_keys(&mut r, &mut cols, tier);
 	} else if growth {
 		crate::gen2::reindex_keys(&mut r, &mut cols[..1], tier);
+	}
+	// rarely: so many entries that one index growth takes several batches
+	if matches!(scenario, "reindex" | "struct") && growth && !cols[0].kind.is_preimage() && r.chance(1, if quick { 40 } else { 15 }) {
+		let n = r.range(8300, 13000) as u32;
+		let mask = *r.pick(&[0xffffu16, 0xfff0, 0xff80]);
+		let seed = r.next();
+		let extra = bulk_keys(seed, n, mask);
+		// bulk keys go last; drop explicit keys that happen to collide with them
+		let set: std::collections::HashSet<&Vec<u8>> = extra.iter().collect();
+		cols[0].keys.retain(|k| !set.contains(k));
+		cols[0].keys.extend(extra);
+		cols[0].bulk = Some((seed, n, mask));
 	}
 	let power = scenario == "power";
 	let buggify = faulty || r.chance(1, 2);
@@ -522,13 +535,19 @@ fn gen_ops(r: &mut Rng, cfg: &RunCfg, tier: Tier, big_max: u32) -> Vec<Op> {
 	}
 	let mut tree_state = crate::gen2::TreeGen::new(cfg);
 	let mut crashes = 0;
-	if matches!(scenario, "crash" | "power" | "drop" | "ioerr" | "struct") && w.crash + w.ioerr > 0 && cfg.sync_data && r.chance(1, 6) {
+	if let Some((_, nb, _)) = cfg.cols[0].bulk {
+		ops = big_growth_pattern(r, cfg, nb as usize);
+		for op in &ops {
+			pipe.apply(op);
+		}
+	} else if matches!(scenario, "crash" | "power" | "drop" | "ioerr" | "struct") && w.crash + w.ioerr > 0 && cfg.sync_data && r.chance(1, 6) {
 		ops = rotation_pattern(r, cfg, big_max, &mut tree_state, quick);
 		for op in &ops {
 			pipe.apply(op);
 		}
 		crashes += 1;
 	}
+	let n = if cfg.cols[0].bulk.is_some() { ops.len() + std::cmp::min(n, 12) } else { n };
 	while ops.len() < n {
 		let choice = r.weighted(&[
 			w.commit, w.step, w.restart, w.drain, w.crash, w.iter, w.ioerr, w.logfuzz, w.locktree, w.admin, w.reject,
@@ -674,6 +693,44 @@ impl PipeLike for Pipe {
 	fn tuple(&self) -> PipeViewSrc {
 		(self.queued, self.appending, self.unread, self.dirty)
 	}
+}
+
+/// Scripted prefix of a run whose column 0 holds thousands of bulk keys: they are all inserted,
+/// then the collision group makes the index grow, and the growth is carried through its batches
+/// with other stages in between.
+fn big_growth_pattern(r: &mut Rng, cfg: &RunCfg, nb: usize) -> Vec<Op> {
+	let nk = cfg.cols[0].keys.len();
+	let first_bulk = nk - nb;
+	let mut ops = Vec::new();
+	let parts = r.range(1, 3) as usize;
+	let mut at = first_bulk;
+	for p in 0..parts {
+		let end = if p + 1 == parts { nk } else { at + (nk - at) / (parts - p) };
+		let tx: Vec<(u8, TxOp)> = (at..end)
+			.map(|k| (0u8, TxOp::Set(k, ValSpec { len: (k % 7) as u32, seed: k as u64, compressible: false })))
+			.collect();
+		ops.push(Op::Commit(tx));
+		ops.push(Op::Step(Stage::ProcessCommits));
+		at = end;
+	}
+	if r.chance(1, 2) {
+		ops.push(Op::Step(Stage::Flush));
+		ops.push(Op::Step(Stage::EnactAll));
+	}
+	// the collision group: one page overflows
+	let tx: Vec<(u8, TxOp)> = (0..first_bulk)
+		.map(|k| (0u8, TxOp::Set(k, ValSpec { len: r.range(0, 30) as u32, seed: r.next(), compressible: false })))
+		.collect();
+	ops.push(Op::Commit(tx));
+	ops.push(Op::Step(Stage::ProcessCommits));
+	for _ in 0..r.range(2, 5) {
+		ops.push(Op::Step(Stage::ProcessReindex));
+		if r.chance(1, 3) {
+			ops.push(Op::Step(*r.pick(&[Stage::Flush, Stage::EnactAll, Stage::EnactOne, Stage::Clean])));
+		}
+	}
+	ops.push(Op::Drain);
+	ops
 }
 
 /// Scripted prefix for the fault scenarios (the rest of the run is random as usual): log files
